@@ -321,13 +321,13 @@ class Gen:
             return Node(t, f"({a.py} {sym} {b.py})", f"(XBin {B} {a.cq} {b.cq})", [a, b], tag=f"{B[1:].lower()}:{k}{w}", key=f"bitwise:{k}")
         if p == "inv":
             a = self.gen(t, d - 1)
-            return Node(t, f"(~{a.py})", f"(XUn UInvert {a.cq})", [a], tag=f"invert:{k}{w}", key=f"invert:{k}")
+            return Node(t, f"(~{a.py})", f"(XUn NInv {a.cq})", [a], tag=f"invert:{k}{w}", key=f"invert:{k}")
         if p == "neg":
             a = self.gen(t, d - 1)
-            return Node(t, f"(-{a.py})", f"(XUn UNeg {a.cq})", [a], tag=f"neg:{k}{w}", key=f"neg:{k}")
+            return Node(t, f"(-{a.py})", f"(XUn NNeg {a.cq})", [a], tag=f"neg:{k}{w}", key=f"neg:{k}")
         if p == "abs":
             a = self.gen(t, d - 1)
-            return Node(t, f"abs({a.py})", f"(XUn UAbs {a.cq})", [a], tag=f"abs:{k}{w}", key=f"abs:{k}")
+            return Node(t, f"abs({a.py})", f"(XUn NAbs {a.cq})", [a], tag=f"abs:{k}{w}", key=f"abs:{k}")
         if p in ("shl", "shr"):
             sym, B = ("<<", "BShl") if p == "shl" else (">>", "BShr")
             a = self.gen(t, d - 1)
@@ -373,7 +373,7 @@ class Gen:
         x = r.random()
         if x < 0.45:
             a = self.leaf(t, const_ok=False)
-            return Node(t, f"(~{a.py})", f"(XUn UInvert {a.cq})", [a], tag=f"invert:{t[0]}{t[1]}", key=f"invert:{t[0]}")
+            return Node(t, f"(~{a.py})", f"(XUn NInv {a.cq})", [a], tag=f"invert:{t[0]}{t[1]}", key=f"invert:{t[0]}")
         if x < 0.6:
             lo, hi = (1, (1 << t[1]) - 1) if t[0] == "u" else srange(t[1])
             z = r.randint(lo, hi) or (hi if hi else lo)
@@ -463,7 +463,7 @@ class Gen:
             return Node(t, f"({a.py} {sym} {b.py})", f"(XBin {B} {a.cq} {b.cq})", [a, b], tag=f"{B[1:].lower()}:bv{w}", key="bitwise:bv")
         if p == "inv":
             a = self.gen(t, d - 1)
-            return Node(t, f"(~{a.py})", f"(XUn UInvert {a.cq})", [a], tag=f"invert:bv{w}", key="invert:bv")
+            return Node(t, f"(~{a.py})", f"(XUn NInv {a.cq})", [a], tag=f"invert:bv{w}", key="invert:bv")
         if p == "concat":
             opts = [(x, w - x) for x in range(1, w) if (x in self.W or x == 1) and ((w - x) in self.W or w - x == 1)]
             if not opts:
@@ -509,7 +509,7 @@ class Gen:
             return Node(t, f"({a.py} {sym} {b.py})", f"(XBin {B} {a.cq} {b.cq})", [a, b], tag=f"{B[1:].lower()}:bit", key="bitwise:bit")
         if p == "inv":
             a = self.gen(t, d - 1)
-            return Node(t, f"(~{a.py})", f"(XUn UInvert {a.cq})", [a], tag="invert:bit", key="invert:bit")
+            return Node(t, f"(~{a.py})", f"(XUn NInv {a.cq})", [a], tag="invert:bit", key="invert:bit")
         if p == "idxc":
             w0 = r.choice(self.W)
             a = self.vec_any(w0, d - 1)
@@ -592,7 +592,7 @@ class Gen:
             return Node(t, f"({a.py} {p} {b.py})", f"(XBin {B} {a.cq} {b.cq})", [a, b], tag=f"{p}:{tname(a.ty)},{tname(b.ty)}", key=f"bool_{p}")
         if p == "not":
             a = self.cond(d - 1)
-            return Node(t, f"(not {a.py})", f"(XUn UNot {a.cq})", [a], tag=f"not:{tname(a.ty)}", key=f"not:{a.ty[0]}")
+            return Node(t, f"(not {a.py})", f"(XUn NNot {a.cq})", [a], tag=f"not:{tname(a.ty)}", key=f"not:{a.ty[0]}")
         if p in ("any", "all"):
             xs = [self.cond(d - 1) for _ in range(r.choice([2, 3]))]
             C = "XAny" if p == "any" else "XAll"
@@ -620,7 +620,7 @@ class Gen:
             a = self.leaf(t)
             if not a.ports:
                 return None
-            return Node(t, f"(-{a.py})", f"(XUn UNeg {a.cq})", [a], tag="neg:int", key="neg:int")
+            return Node(t, f"(-{a.py})", f"(XUn NNeg {a.cq})", [a], tag="neg:int", key="neg:int")
         if p == "ite":
             nd = self.ite(t, d)
             nd.nat = nd.kids[1].nat and nd.kids[2].nat
@@ -667,7 +667,7 @@ def systematic(W, rng, thorough):
                 for plain in (False, True):
                     x, y = a(), b()
                     if not plain:
-                        y = Node(Bn, f"(~{y.py})", f"(XUn UInvert {y.cq})", [y], tag=f"invert:{k}{wb}", key=f"invert:{k}")
+                        y = Node(Bn, f"(~{y.py})", f"(XUn NInv {y.cq})", [y], tag=f"invert:{k}{wb}", key=f"invert:{k}")
                     forms = {"div": [f"op.truncdiv({x.py}, {y.py})"] + ([f"({x.py} // {y.py})"] if k == "u" else []),
                              "mod": [f"({x.py} % {y.py})"], "rem": [f"op.rem({x.py}, {y.py})"]}[nm]
                     for f in forms:
@@ -701,7 +701,7 @@ def systematic(W, rng, thorough):
                         out.append((g, Node(T, f, f"(XBin {B} {x.cq} {i.cq})", [x, i], tag=f"{nm}:{k}{w},int", key=f"{nm}:{k},int")))
                 for nm, B in (("div", "BTruncDiv"), ("mod", "BMod"), ("rem", "BRem")):
                     x, i = a(), int_lit(z)
-                    y = Node(T, f"(~{x.py})", f"(XUn UInvert {x.cq})", [x], tag=f"invert:{k}{w}", key=f"invert:{k}")
+                    y = Node(T, f"(~{x.py})", f"(XUn NInv {x.cq})", [x], tag=f"invert:{k}{w}", key=f"invert:{k}")
                     f = {"div": f"op.truncdiv({i.py}, {y.py})", "mod": f"({i.py} % {y.py})", "rem": f"op.rem({i.py}, {y.py})"}[nm]
                     out.append((g + ":div", Node(T, f, f"(XBin {B} {i.cq} {y.cq})", [i, y], tag=f"{nm}:int,{k}{w}", key=f"{nm}:int,{k}")))
             # run-time int operand (an int input port)
@@ -726,14 +726,14 @@ def systematic(W, rng, thorough):
             # unary, shifts, views, resize, bitwise
             g = f"unary:{k}{w}"
             x = a()
-            out.append((g, Node(T, f"(~{x.py})", f"(XUn UInvert {x.cq})", [x], tag=f"invert:{k}{w}", key=f"invert:{k}")))
+            out.append((g, Node(T, f"(~{x.py})", f"(XUn NInv {x.cq})", [x], tag=f"invert:{k}{w}", key=f"invert:{k}")))
             if k == "s":
                 x = a()
-                out.append((g, Node(T, f"(-{x.py})", f"(XUn UNeg {x.cq})", [x], tag=f"neg:s{w}", key="neg:s")))
+                out.append((g, Node(T, f"(-{x.py})", f"(XUn NNeg {x.cq})", [x], tag=f"neg:s{w}", key="neg:s")))
                 x = a()
-                out.append((g, Node(T, f"abs({x.py})", f"(XUn UAbs {x.cq})", [x], tag=f"abs:s{w}", key="abs:s")))
+                out.append((g, Node(T, f"abs({x.py})", f"(XUn NAbs {x.cq})", [x], tag=f"abs:s{w}", key="abs:s")))
             x = a()
-            out.append((g, Node(("bool", 1), f"(not {x.py})", f"(XUn UNot {x.cq})", [x], tag=f"not:{k}{w}", key=f"not:{k}")))
+            out.append((g, Node(("bool", 1), f"(not {x.py})", f"(XUn NNot {x.cq})", [x], tag=f"not:{k}{w}", key=f"not:{k}")))
             for attr, V, k2 in (("unsigned", "VwU", "u"), ("signed", "VwS", "s"), ("bitvector", "VwBV", "bv")):
                 x = a()
                 out.append((g, Node((k2, w), f"{x.py}.{attr}", f"(XView {V} {x.cq})", [x], tag=f"view:{k}{w}->{k2}", key=f"view:{k}->{k2}")))
@@ -780,9 +780,9 @@ def systematic(W, rng, thorough):
             x, c = P(f"v{w}", T), const_node(T, rng.randrange(1 << w))
             out.append((g, Node(("bool", 1), f"({x.py} {sym} {c.py})", f"(XCmp {C} {x.cq} {c.cq})", [x, c], tag=f"{C[1:].lower()}:bv{w},const", key="cmp:bv,bv")))
         x = P(f"v{w}", T)
-        out.append((g, Node(T, f"(~{x.py})", f"(XUn UInvert {x.cq})", [x], tag=f"invert:bv{w}", key="invert:bv")))
+        out.append((g, Node(T, f"(~{x.py})", f"(XUn NInv {x.cq})", [x], tag=f"invert:bv{w}", key="invert:bv")))
         x = P(f"v{w}", T)
-        out.append((g, Node(("bool", 1), f"(not {x.py})", f"(XUn UNot {x.cq})", [x], tag=f"not:bv{w}", key="not:bv")))
+        out.append((g, Node(("bool", 1), f"(not {x.py})", f"(XUn NNot {x.cq})", [x], tag=f"not:bv{w}", key="not:bv")))
         for attr, V, k2 in (("unsigned", "VwU", "u"), ("signed", "VwS", "s"), ("bitvector", "VwBV", "bv")):
             x = P(f"v{w}", T)
             out.append((g, Node((k2, w), f"{x.py}.{attr}", f"(XView {V} {x.cq})", [x], tag=f"view:bv{w}->{k2}", key=f"view:bv->{k2}")))
@@ -824,7 +824,7 @@ def systematic(W, rng, thorough):
         x, c = P("x", B1), const_node(B1, 1)
         out.append((g, Node(B1, f"({x.py} {sym} {c.py})", f"(XBin {B} {x.cq} {c.cq})", [x, c], tag=f"{B[1:].lower()}:bit,const", key="bitwise:bit")))
     x = P("x", B1)
-    out.append((g, Node(B1, f"(~{x.py})", f"(XUn UInvert {x.cq})", [x], tag="invert:bit", key="invert:bit")))
+    out.append((g, Node(B1, f"(~{x.py})", f"(XUn NInv {x.cq})", [x], tag="invert:bit", key="invert:bit")))
     for sym, C in Gen.CMPS[:2]:
         x, y = P("x", B1), P("y", B1)
         out.append((g, Node(("bool", 1), f"({x.py} {sym} {y.py})", f"(XCmp {C} {x.cq} {y.cq})", [x, y], tag=f"{C[1:].lower()}:bit,bit", key="cmp:bit,bit")))
@@ -834,7 +834,7 @@ def systematic(W, rng, thorough):
     g = "boolops"
     for i_, ca in enumerate(conds):
         x = ca()
-        out.append((g, Node(BO, f"(not {x.py})", f"(XUn UNot {x.cq})", [x], tag=f"not:{tname(x.ty)}", key=f"not:{x.ty[0]}")))
+        out.append((g, Node(BO, f"(not {x.py})", f"(XUn NNot {x.cq})", [x], tag=f"not:{tname(x.ty)}", key=f"not:{x.ty[0]}")))
         for cb in conds[i_:] if not thorough else conds:
             for nm, B in (("and", "BAndL"), ("or", "BOrL")):
                 x, y = ca(), cb()
@@ -859,7 +859,7 @@ def systematic(W, rng, thorough):
         x, y = P("n", I0), P("m", I0)
         out.append((g, Node(BO, f"({x.py} {sym} {y.py})", f"(XCmp {C} {x.cq} {y.cq})", [x, y], tag=f"{C[1:].lower()}:int,int", key="cmp:int,int")))
     x = P("m", I0)
-    out.append((g, Node(I0, f"(-{x.py})", f"(XUn UNeg {x.cq})", [x], tag="neg:int", key="neg:int")))
+    out.append((g, Node(I0, f"(-{x.py})", f"(XUn NNeg {x.cq})", [x], tag="neg:int", key="neg:int")))
     return out
 
 
@@ -874,7 +874,7 @@ def candidates(W):
     a = lambda: P(f"a{w}", U)
     s = lambda: P(f"s{w}", S)
     x = a()
-    out.append(Node(U, f"(-{x.py})", f"(XUn UNeg {x.cq})", [x], tag=f"neg:u{w}", key="neg:u"))
+    out.append(Node(U, f"(-{x.py})", f"(XUn NNeg {x.cq})", [x], tag=f"neg:u{w}", key="neg:u"))
     for nm, sym, B, rw in (("add", "+", "BAdd", w), ("sub", "-", "BSub", w)):
         x, i = a(), int_lit(-1)
         out.append(Node((("u", rw)), f"({x.py} {sym} {i.py})", f"(XBin {B} {x.cq} {i.cq})", [x, i], tag=f"{nm}:u{w},negint", key=f"{nm}:u,negative_int"))
@@ -918,24 +918,44 @@ def port_order(ports):
     return sorted(ports)
 
 
-def cands_of(name, t, cons, wide, rng):
+ALPHA_LIMIT = 144     # the explorer visits |alphabet|^2 transitions (the settled state of the design stores the inputs)
+
+
+def cand_values(name, t, cons, reduced, rng):
+    """candidate values of one input port: all values, or (reduced) corner values + a sample"""
     k, w = t
-    if k == "bit":
-        return "bit_cands", 2
-    if k == "bool":
-        return "[VB false; VB true]", 2
+    if k in ("bit", "bool"):
+        return [0, 1]
     if k == "int":
         lo, hi = INT_PORTS[name]
         if name in cons:
             lo, hi = max(lo, cons[name][0]), min(hi, cons[name][1])
-        return "[" + "; ".join(f"VI {cz(z)}" for z in range(lo, hi + 1)) + "]", max(hi - lo + 1, 0)
-    K = {"u": "KUns", "s": "KSgn", "bv": "KSlv"}[k]
-    if w in wide:
-        vals = {0, 1, (1 << (w - 1)) - 1, 1 << (w - 1), (1 << w) - 1, (1 << w) - 2}
+        vals = list(range(lo, hi + 1))
+        return vals if not reduced or len(vals) <= 2 else sorted({lo, hi})
+    if not reduced:
+        return list(range(1 << w))
+    vals = {0, (1 << w) - 1}
+    if w >= 4:
+        vals |= {1, (1 << (w - 1)) - 1, 1 << (w - 1), (1 << w) - 2}
         while len(vals) < 6 + CORNER_SAMPLE:
             vals.add(rng.randrange(1 << w))
-        return "[" + "; ".join(f"VV {K} {w}%N {z}%Z" for z in sorted(vals)) + "]", len(vals)
-    return f"(vec_cands {K} {w}%N)", 1 << w
+    elif w >= 2:
+        vals.add(rng.randrange(1, (1 << w) - 1))
+    return sorted(vals)
+
+
+def coq_cands(t, vals):
+    k, w = t
+    if k == "bit":
+        return "[" + "; ".join(f"VL {R.coq_bool(bool(v))}" for v in vals) + "]"
+    if k == "bool":
+        return "[" + "; ".join(f"VB {R.coq_bool(bool(v))}" for v in vals) + "]"
+    if k == "int":
+        return "[" + "; ".join(f"VI {cz(z)}" for z in vals) + "]"
+    K = {"u": "KUns", "s": "KSgn", "bv": "KSlv"}[k]
+    if len(vals) == 1 << w:
+        return f"(vec_cands {K} {w}%N)"
+    return "[" + "; ".join(f"VV {K} {w}%N {z}%Z" for z in vals) + "]"
 
 
 class Design:
@@ -988,15 +1008,21 @@ class Design:
         return f"Definition its : list ty := {its}.\nDefinition es : list texp := [\n  " + ";\n  ".join(es) + "]."
 
     def alphabet(self, wide, rng):
-        parts, size = [], 1
-        for p in self.order:
-            c, n = cands_of(p, self.ports[p], self.cons, wide, rng)
-            parts.append(c)
-            size *= n
-        return "product [" + "; ".join(parts) + "]", size
+        reduced = {p for p in self.order if self.ports[p][0] in ("u", "s", "bv") and self.ports[p][1] in wide}
+        while True:
+            vals = {p: cand_values(p, self.ports[p], self.cons, p in reduced, rng) for p in self.order}
+            size = 1
+            for p in self.order:
+                size *= len(vals[p])
+            rest = [p for p in self.order if p not in reduced and len(vals[p]) > 2]
+            if size <= ALPHA_LIMIT or not rest:
+                break
+            reduced.add(max(rest, key=lambda p: len(vals[p])))
+        self.sampled = sorted(reduced)
+        return "product [" + "; ".join(coq_cands(self.ports[p], vals[p]) for p in self.order) + "]", size
 
     def meta(self):
-        return {"clocked": self.clocked, "exprs": [n.py for n in self.nodes], "types": [tname(n.ty) for n in self.nodes],
+        return {"clocked": self.clocked, "sampled_ports": getattr(self, "sampled", []), "exprs": [n.py for n in self.nodes], "types": [tname(n.ty) for n in self.nodes],
                 "tags": [n.tag for n in self.nodes], "source": self.source()}
 
 
@@ -1012,7 +1038,7 @@ def bundle(items, rng, wide=()):
     out = []
     for key, ns in groups.items():
         bits = alpha_bits(dict(key[0]), wide)
-        per = 24 if bits <= 6 else 12
+        per = 24 if bits <= 4 else 12
         for i in range(0, len(ns), per):
             out.append((key, ns[i:i + per]))
     return out
@@ -1096,7 +1122,7 @@ def run(ck: common.Check, replay=None):
             designs.append(Design(f"cand{j:03d}", [nd], False))
         # random trees
         ntrees = 160 if not thorough else 1500
-        G = Gen(rng, W, max_bits=11, wide=wide)
+        G = Gen(rng, W, max_bits=7.2, wide=wide)
         roots = [("bool", 1), ("bit", 1), ("int", 0)] + [(kk, w) for kk in ("u", "s", "bv") for w in sorted(set(W) | {4, 5, 6} if not thorough else set(W) | {5, 6})]
         trees = []
         for j in range(ntrees):
@@ -1124,7 +1150,7 @@ def run(ck: common.Check, replay=None):
                 ports.update(nd.ports)
                 if any(pk["ports"].get(p, t_) != t_ for p, t_ in nd.ports.items()):
                     continue
-                if alpha_bits(ports, wide) <= 11.5 and not (nd.risk or pk["risk"]):
+                if alpha_bits(ports, wide) <= 7.2 and not (nd.risk or pk["risk"]):
                     pk["nodes"].append(nd)
                     pk["ports"] = ports
                     placed = True
@@ -1215,6 +1241,8 @@ def run_designs(ck, designs, wide, singles_only=False):
                 ck.count("states", info.get("states", 0))
                 ck.count("transitions", info.get("transitions", 0))
                 ck.count("valuations", c.alpha_size)
+                if d.sampled:
+                    ck.count("designs_with_sampled_alphabet")
                 ck.hist("context", "clocked" if d.clocked else "concurrent")
                 for n in d.nodes:
                     for tg in n.all_tags():
